@@ -29,6 +29,7 @@ static InvResult run_cli(bool yarac, const std::vector<std::string>& argv, uint6
   r.iso = sim_isolate([&] {
     std::vector<const char*> av; for (auto& a : argv) av.push_back(a.c_str()); av.push_back(nullptr);
     g_cap = CliCapture(); g_cap.active = true; g_cap.scheduled = true; g_cap.dir_seed = dir_seed;
+    sim_detheap_enable(); sim_detheap_reset();   // yara's heap addresses depend on this invocation only (they decide basic-block counts)
     sim_clock_reset();
     static int rc; rc = -1; static bool exited; exited = false;
     auto emit = [](int status, const std::string& info) {
@@ -209,6 +210,7 @@ static void run_case(uint64_t seed, int64_t run, bool thorough, const std::vecto
   st.c["max.threads"] = std::max<int64_t>(st.c["max.threads"], r.threads); if (nfiles > 64) st.c["probe.more_files_than_queue_slots"]++; if (r.blocked_sem) st.c["probe.runs_with_blocked_semaphore_wait"]++;
   for (auto& f : reach) if (f.first.find("unreadable") != std::string::npos) st.c["faults_fired.file_unreadable"]++;
   if (r.switches) st.hash(r.hash);
+  if (getenv("SIM_DUMP_HASHES")) { J h = J::obj(); h.set("t", "rh"); h.set("run", run); char b[64]; snprintf(b, sizeof b, "%016llx:%lld:%zu", (unsigned long long) r.hash, (long long) r.switches, r.out.size()); h.set("h", b); emit_line(h); }
   auto report = [&](const Verdict& v) { if (v.sig.empty()) return; st.c["viol." + v.klass]++; if (reported.insert(v.sig).second || replaying) { J rp = J::obj(); rp.set("engine", "sim_cli"); rp.set("seed", (int64_t) seed); rp.set("run", run); rp.set("thorough", thorough); emit_violation("C18", v.klass, v.sig, v.detail + " [yara " + join(av) + "; " + std::to_string(reach.size()) + " files, policy " + std::to_string(pol.kind) + ", " + std::to_string(r.switches) + " switches]", rp); } };
   report(judge(r, exp_rec, exp_err, ref_err, o, use_list ? "scan-list" : "directory"));
   // rules pre-compiled by yarac give the same output
@@ -248,6 +250,7 @@ int main(int argc, char** argv) {
   uint64_t seed = args.num("seed", 1); int64_t from = args.num("from", 0);
   double budget = (double) args.num("budget", thorough ? 1200 : 60), t0 = now_s();
   int64_t nruns = args.num("runs", thorough ? 60000 : 1200);
+  if (args.has("dump-hashes")) { setenv("SIM_DUMP_HASHES", "1", 1); nruns = std::min<int64_t>(nruns, 160); }
   for (int64_t i = from; i < nruns; i++) {
     if (!sh.mine(i)) continue;
     if (now_s() - t0 > budget) { st.c["stopped_by_budget"]++; break; }
